@@ -239,6 +239,7 @@ func (t *wfTracer) EndTask(task tracing.Task)        {}
 // cuHook attaches the wavefront tracer to every compute unit right before its first event (the runner keeps the
 // simulation to itself; an event's handler is the component). A pointer type: akita compares registered hooks.
 type cuHook struct {
+	mu   sync.Mutex // the parallel engine calls hooks from several goroutines
 	seen map[string]bool
 	t    *wfTracer
 }
@@ -252,7 +253,12 @@ func (h *cuHook) Func(ctx sim.HookCtx) {
 		return
 	}
 	c, ok := evt.Handler().(tracing.NamedHookable)
-	if !ok || h.seen[c.Name()] || !strings.Contains(c.Name(), ".CU[") {
+	if !ok || !strings.Contains(c.Name(), ".CU[") {
+		return
+	}
+	h.mu.Lock()
+	defer h.mu.Unlock()
+	if h.seen[c.Name()] {
 		return
 	}
 	h.seen[c.Name()] = true
@@ -368,7 +374,16 @@ func main() {
 	// attach the wavefront tracer to every compute unit right before its first event (the runner keeps the simulation
 	// to itself; an event's handler is the component)
 	wft := &wfTracer{}
-	r.Engine().AcceptHook(&cuHook{seen: map[string]bool{}, t: wft})
+	parallel := false
+	for _, a := range os.Args[1:] {
+		if a == "-parallel" || a == "--parallel" {
+			parallel = true
+		}
+	}
+	if !parallel {
+		// (the id-shifted runs use the serial engine; no need to touch components from the parallel engine's workers)
+		r.Engine().AcceptHook(&cuHook{seen: map[string]bool{}, t: wft})
+	}
 
 	r.Run()
 	driver.VerifYield = nil
